@@ -252,6 +252,12 @@ Theorem C01_partial_run_race_reversal_explored :
 Proof. exact run_race_reversal_explored. Qed.
 Print Assumptions C01_partial_run_race_reversal_explored.
 
+(* D24 (listed finding, computed): yield_now is invisible to DPOR; main `fetch_add; store`, t1 `yield_now; load`: R lets t1 read the fetch_add's value, the unbounded exploration of L finishes without ever producing it *)
+Theorem C01_refuted_D24_missing :
+  missing p_D24 o_D24 = true.
+Proof. exact D24_missing. Qed.
+Print Assumptions C01_refuted_D24_missing.
+
 (* observed (computed): when the racing thread is in state Yield at the backtrack point nothing is registered and the reversed order is never run: yield_now means `not before another thread has run` (loom's documented pruning; outside C01's primitives) *)
 Theorem C01_observed_yield_race_reversal_missed :
   missing p_yield_rmw o_yield_rmw = true /\
